@@ -234,6 +234,21 @@ theorem call_is_run (sigOf : SB → Sig) (c : Cfg Sig) (q : Req) (k : Option Nat
         run sigOf (step sigOf c (.req q)).1 (es ++ [.crash])
       rw [run_append, ← h]; rfl
 
+/-- a call during which the state file cannot be written is a run too (the panic of `Save` is a
+crash at `Stage.memSet`) -/
+theorem callFail_is_run (sigOf : SB → Sig) (c : Cfg Sig) (q : Req) :
+    ∃ es, (callFail sigOf c q).1 = run sigOf c es := by
+  unfold callFail
+  simp only
+  split
+  · obtain ⟨es, h⟩ := ticksHold_is_run sigOf 2 (step sigOf c (.req q)).1
+    refine ⟨.req q :: (es ++ [.crash]), ?_⟩
+    show (step sigOf (ticksHold sigOf 2 (step sigOf c (.req q)).1) .crash).1 =
+      run sigOf (step sigOf c (.req q)).1 (es ++ [.crash])
+    rw [run_append, ← h]; rfl
+  · obtain ⟨es, h⟩ := ticks_is_run sigOf 8 (step sigOf c (.req q)).1 (step sigOf c (.req q)).2
+    exact ⟨.req q :: es, h⟩
+
 /-! ### non-vacuity: the hypotheses are satisfiable and the journal really contains several
 answers for one height/round/step in a history with crashes -/
 section NonVacuity
